@@ -19,6 +19,7 @@ func C07(c *Ctx) {
 	r.Rule("C07-i", "InitialNames of each kind includes, on every path, the InitialNames of every operand evaluated at the start position (table in DESIGN.md §3 C07)")
 	r.Rule("C07-n", "NullableVisit / IsNullable of each kind return the value required by the table (constant, any-of, all-of, operand's) and keep the stored flag equal to the returned value")
 	r.Rule("C07-v", "IsNullable reads flags that only NullableVisit stores, and InitialNames consults IsNullable of sequence items: therefore NullableVisit of a kind must visit (call NullableVisit on) every operand whose InitialNames the kind's own InitialNames includes, on every path — a constant result or a short-circuit must not skip the visit")
+	r.Rule("C07-e", "error discipline of the detection pipeline: every call in package builder to a function of that package returning an error (PrepareGrammar, ComputeLeftRecursives, findLeader, FindCyclesInSCC) is followed by `if err != nil { return … }` with exactly that condition, so an analysis that gave up never reads as 'no left recursion'")
 	r.Rule("C07-b", "buildParser: `if !b.supportLeftRecursion && haveLeftRecursion { return error wrapping ErrHaveLeftRecursion }` precedes every write; PrepareGrammar = ComputeNullables then ComputeLeftRecursives; MakeFirstGraph stores rule.InitialNames() for every rule; ComputeLeftRecursives marks every member of an SCC of size > 1 and every self-loop and reports haveLeftRecursion for both")
 
 	g := c.G()
@@ -64,6 +65,7 @@ func C07(c *Ctx) {
 	r.MinRule("C07-i", 18)
 	r.MinRule("C07-n", 18)
 	c07Wiring(c, g)
+	c07Errors(c, g)
 }
 
 func recvName(fd *ast.FuncDecl) string {
@@ -610,4 +612,55 @@ func c07Visits(c *Ctx, g *load.G, kind string, nv *ast.FuncDecl, need []string) 
 	} else {
 		r.Ok("C07-v", construct, "", w, fmt.Sprintf("%d operands visited on every path", n))
 	}
+}
+
+// c07Errors: no error of the detection pipeline is dropped or conditionally ignored.
+func c07Errors(c *Ctx, g *load.G) {
+	r := c.R
+	bp := g.Pkg("builder")
+	callees := map[string]bool{"PrepareGrammar": true, "ComputeLeftRecursives": true, "findLeader": true, "FindCyclesInSCC": true}
+	n := 0
+	for _, fd := range load.AllFuncDecls(bp) {
+		if fd.Body == nil || strings.HasSuffix(g.Fset.Position(fd.Pos()).Filename, "_test.go") {
+			continue
+		}
+		ast.Inspect(fd.Body, func(nd ast.Node) bool {
+			blk, ok := nd.(*ast.BlockStmt)
+			if !ok {
+				return true
+			}
+			for i, st := range blk.List {
+				as, ok := st.(*ast.AssignStmt)
+				if !ok || len(as.Rhs) != 1 {
+					continue
+				}
+				ce, ok := as.Rhs[0].(*ast.CallExpr)
+				if !ok || !callees[callName(ce)] {
+					continue
+				}
+				n++
+				errVar := nospace(as.Lhs[len(as.Lhs)-1])
+				construct := "G.builder." + fd.Name.Name + ":error-of-" + callName(ce)
+				okNext := false
+				why := "the error is assigned to " + errVar
+				if errVar != "_" && i+1 < len(blk.List) {
+					if is, ok := blk.List[i+1].(*ast.IfStmt); ok {
+						cond := nospace(is.Cond)
+						if cond == errVar+"!=nil" && len(is.Body.List) >= 1 {
+							if _, isRet := is.Body.List[len(is.Body.List)-1].(*ast.ReturnStmt); isRet {
+								okNext = true
+							}
+						}
+						why = "the next statement tests `" + cond + "`"
+					} else {
+						why = "the next statement does not test the error"
+					}
+				}
+				r.Check(okNext, "C07-e", construct, "", g.Where(as.Pos()), "followed by if "+errVar+" != nil { return … }",
+					why+" instead of returning on exactly "+errVar+" != nil: when the analysis gives up (e.g. no leader candidate) the other results are zero values, so the grammar reads as free of left recursion and is accepted")
+			}
+			return true
+		})
+	}
+	r.Min("C07-e error sites", 3, n)
 }
